@@ -1,6 +1,7 @@
 import MoPepGen.Driver.C10
 import MoPepGen.Driver.Pipe
 import MoPepGen.Driver.C12
+import MoPepGen.Driver.C20
 
 /-- one line in (`<stream>\t<op>\t<args…>`), one line out -/
 def dispatch (line : String) : String :=
@@ -8,6 +9,7 @@ def dispatch (line : String) : String :=
   | "C10" :: args => MoPepGen.Driver.C10.handle args
   | "P" :: args => MoPepGen.Driver.Pipe.handle args
   | "C12" :: args => MoPepGen.Driver.C12.handle args
+  | "C20" :: args => MoPepGen.Driver.C20.handle args
   | _ => "bad-stream"
 
 partial def loop (h : IO.FS.Stream) (out : IO.FS.Stream) : IO Unit := do
